@@ -457,6 +457,33 @@ def callable_args_conditions(ctx, f, callee_rx, positions):
     return out
 
 
+def skip_filters(ctx, f):
+    """The `Iterator::filter` predicates reachable from `f` (its closures, private helpers two levels
+    down), as (element kind 'field'|'variant'|other, DNF with the element named `elem`) – wherever
+    the filters are written: handed over as arguments, or applied inside the helpers."""
+    from vlib import sym as _sym, resalg as _ra
+    out = []
+    bodies = [f] + [h for h in ctx.local_callees(f, depth=2) if str(h.raw.get("vis", "")).startswith("Restricted")]
+    seen = set()
+    for b in bodies:
+        for o in [b] + ctx._closures_deep(b):
+            s_, _ = ctx.sym(o)
+            for _, t in ctx.find_calls(o, r"Iterator(>)?::filter$"):
+                e = _sym.strip_transparent(s_.operand(t["args"][1]))
+                cb, pname = None, None
+                if e[0] == "closure":
+                    cb, pname = _ra._closure_body(o.crate, e[1]), "a2"
+                elif e[0] == "fnptr":
+                    cb, pname = ctx.fn(e[1], required=False), "a1"
+                if cb is None or cb.key in seen:
+                    continue
+                seen.add(cb.key)
+                ety = cb.local_ty(2 if pname == "a2" else 1)
+                kind = "field" if "codegen::field::Field" in ety else ("variant" if "codegen::variant::Variant" in ety else ety)
+                out.append((kind, [{re.sub(r"^\(?%s\)?\b" % pname, "elem", a) for a in d} for d in ctx.true_conditions(cb)]))
+    return out
+
+
 def buffers_only_pushed(ctx, rule):
     """`__flatten` (unknown items kept for the flatten field) and `__fwd_attrs` (forwarded attributes)
     live across list items and across attributes.  Wherever a generator mentions them, it pushes to
